@@ -458,6 +458,66 @@ def gen_case_ops(r, n, ex, kind):
     yield "P len"
     yield "P items _ _"
 
+def gen_reuse(r, n):
+    """state carried across reuse of one tree object: (A) bulk load, drain to empty through individual deletions,
+    refill through update() with larger keys; (B) copy(), move the copy's rightmost leaf (append until it splits,
+    or delete at the right end until it merges), update() the copy from another tree with larger keys.
+    update lines are emitted twice: the harness passes a dict / list / tree argument depending on the parity of
+    the call number, and the second, idempotent call takes the other kind."""
+    cap = r.pick([4, 5, 5, 6, 7, 8, 9])
+    yield f"flavour {r.pick(['int', 'int', 'str', 'custom'])}"
+    m = cap * r.pick([2, 3, 5]) + r.below(cap)
+    base = [(2 * i, i % 9 + 1) for i in range(m)]
+    def pairs(items): return ",".join(f"{k}:{v}" for k, v in items) if items else "-"
+    if r.chance(50):
+        yield f"P fromsorted {cap} " + pairs(base)
+    else:
+        yield f"P new {cap}"
+        yield "P update " + pairs(base)
+        yield "P update " + pairs(base)
+    yield "P dump"
+    top = 2 * m
+    for round_ in range(2 + r.below(3)):
+        if r.chance(50):
+            # (A) drain completely, one entry at a time
+            keys = [k for k, _ in base]
+            order = r.below(4)
+            if order == 1: keys.reverse()
+            elif order == 2: keys = keys[::2] + keys[1::2]
+            for k in keys:
+                yield f"P {r.pick(['del', 'del', 'pop'])} {k}" if order != 3 else "P popitem"
+            yield "P len"
+            yield "P dump"
+            base = [(top + 2 * i, i % 7 + 1) for i in range(cap * 2 + r.below(2 * cap))]
+            top += 2 * len(base)
+            yield "P update " + pairs(base)
+            yield "P update " + pairs(base)
+        else:
+            # (B) copy, move the right edge of the copy, update it from a tree
+            yield "P copy"
+            if r.chance(60):
+                extra = [(top + 2 * i, 3) for i in range(cap + 1 + r.below(cap))]
+                top += 2 * len(extra)
+                for k, v in extra: yield f"P set {k} {v}"
+                base = base + extra
+            else:
+                cut = min(len(base) - 1, cap + r.below(cap))
+                for k, _ in reversed(base[len(base) - cut:]): yield f"P del {k}"
+                base = base[:len(base) - cut]
+            yield "P dump"
+            more = [(top + 2 * i, 5) for i in range(2 + r.below(2 * cap))]
+            top += 2 * len(more)
+            yield "P update " + pairs(more)
+            yield "P update " + pairs(more)
+            base = base + more
+        yield "P dump"
+        yield "P len"
+        yield "P items _ _"
+        for k, _ in base[-(cap + 2):]:
+            yield f"P in {k}"
+            yield f"P getitem {k}"
+        yield f"P keys {base[0][0]} {base[-1][0] + 1}" if base else "P keys _ _"
+
 def gen_local(r, n):
     """sparse ascending fill (every leaf at its post-split size), then episodes that fill the gap below a
     pivot (the leaf left of it becomes full) and delete upwards from the pivot (its leaf underflows while the
@@ -575,8 +635,10 @@ def main():
     for _ in range(cases):
         caseno += 1
         ex.run_line(f"case {caseno}")
-        if suite == "py-ops": g = gen_local(r, n) if r.chance(30) else gen_case_ops(r, n, ex, "ops")
-        elif suite == "py-range": g = gen_case_ops(r, n, ex, "range")
+        if suite == "py-ops":
+            x = r.below(100)
+            g = gen_local(r, n) if x < 30 else (gen_reuse(r, n) if x < 42 else gen_case_ops(r, n, ex, "ops"))
+        elif suite == "py-range": g = gen_reuse(r, n) if r.chance(8) else gen_case_ops(r, n, ex, "range")
         elif suite == "py-deep": g = gen_deep(r, n)
         else: raise SystemExit("unknown suite " + suite)
         for line in g: ex.run_line(line)
